@@ -1029,3 +1029,9 @@ M('arnoldi-init-zero-test-entrywise', 'C03,C07', 'no-direct-reduction-in-factori
 M('tridiageigen-size-assigned-before-rejection', 'C12', 'rejected-call-leaves-the-object-unchanged',
   [('LinAlg/TridiagEigen.h', '        if (mat.rows() != mat.cols())\n            throw std::invalid_argument("TridiagEigen: matrix must be square");\n        m_n = mat.rows();\n',
     '        m_n = mat.rows();\n        if (m_n != mat.cols())\n            throw std::invalid_argument("TridiagEigen: matrix must be square");\n')], 'reverts fix F31 for one class')
+
+# ----------------------------------------------------------------------------- F32
+M('bkldlt-solution-not-scaled-back', 'C10', 'factorized-matrix-normalised',
+  [('LinAlg/BKLDLT.h', "        res *= (RealScalar(1) / m_scale);\n", "")], 'x solves (A / scale) x = b')
+M('bkldlt-data-not-normalised', 'C10', 'factorized-matrix-normalised',
+  [('LinAlg/BKLDLT.h', "            m_data *= (RealScalar(1) / m_scale);\n        else\n            m_scale = RealScalar(1);", "            m_scale = RealScalar(1);\n        else\n            m_scale = RealScalar(1);")], 'reverts the scaling of fix F32')
